@@ -326,6 +326,9 @@ def rescale(img, scale, shape=None, mask=None, order=3, mode='nearest',
         # interpolation and masking are done in floating point (integer and
         # boolean images, e.g. binary masks, are accepted)
         img = img.astype(float)
+    elif img.dtype not in (np.float32, np.float64, np.complex64, np.complex128):
+        # half and extended precision are not supported by the interpolator
+        img = img.astype(complex if np.iscomplexobj(img) else float)
 
     if mask is None:
         # take the real portion to ensure that even if img is complex, mask will
